@@ -13,7 +13,7 @@ import inspect
 import logging
 import threading
 from abc import ABC, abstractmethod
-from collections.abc import Callable, Iterable, Sized
+from collections.abc import Callable, Iterable, Iterator, Sized
 from dataclasses import dataclass, field
 from functools import wraps
 from itertools import count
@@ -1369,6 +1369,13 @@ class ExecutionTracer(AbstractExecutionTracer):  # noqa: PLR0904
         with self.temporarily_disable():
             value1 = tt.unwrap(value1)
             value2 = tt.unwrap(value2)
+
+            if cmp_op in {PynguinCompare.IN, PynguinCompare.NOT_IN} and isinstance(
+                value2, Iterator
+            ):
+                # A membership test consumes (part of) an iterator; evaluating it here
+                # would change what the SUT observes afterwards.
+                return
 
             # Python's own operator decides which branch is taken (it raises only if
             # the comparison in the SUT raises as well).  The heuristics then only
